@@ -86,8 +86,9 @@ type AttemptSpec struct {
 	// SetMaxPar > 0: while it runs the task calls g.SetMaxParallel(n) on its own graph (no effect on the
 	// Run in progress, whose limit was fixed when it started)
 	SetMaxPar int `json:"set_max_parallel,omitempty"`
-	// SetRetries: while it runs the task lowers the retry budget of one of its dependents (which
-	// cannot have started yet) through g.TaskRetries(g.Task(id), r)
+	// (set_retries - a dependency lowering a dependent's retry budget while the graph runs - was tried
+	// and withdrawn: whether Run reads the budget when it starts or when the task starts is not said
+	// anywhere, so no oracle can judge the number of attempts afterwards; DESIGN section 14.3, wave 12)
 	SetRetries *SetRetriesSpec `json:"set_retries,omitempty"`
 }
 
@@ -924,23 +925,6 @@ func Generate(seed uint64, o GenOpts) *Scenario {
 		t := r.Intn(len(sc.Tasks))
 		for k := range sc.Tasks[t].Attempts {
 			sc.Tasks[t].Attempts[k].SetMaxPar = 1 + r.Intn(4)
-		}
-	}
-	if sc.Phase2 == nil && !sc.Again && r.Intn(10) == 0 {
-		ok := true
-		for g := 0; g < sc.Graphs; g++ {
-			if m := sc.ModelFor(g); m.DefErrors != 0 || m.Cyclic {
-				ok = false
-			}
-		}
-		m := sc.ModelFor(0)
-		for t := 0; ok && t < sc.N; t++ {
-			if m.Exists[t] && m.Retries[t] > 0 && len(m.Deps[t]) > 0 && r.Intn(2) == 0 {
-				d := m.Deps[t][r.Intn(len(m.Deps[t]))]
-				for k := range sc.Tasks[d].Attempts {
-					sc.Tasks[d].Attempts[k].SetRetries = &SetRetriesSpec{T: t, R: r.Intn(m.Retries[t])}
-				}
-			}
 		}
 	}
 	return sc
